@@ -362,6 +362,7 @@ class Facts:
         # functions the rule tables do not know (split off by a refactoring) are made transparent
         if os.environ.get('VF_NO_INLINE') != '1':
             import inline
+            inline.devirtualise(self)
             inline.normalise(self)
             inline.fold_const_enums(self)
             inline.normalise_loops(self)
